@@ -306,6 +306,11 @@ pub fn fs(dir: &std::path::Path) -> Family {
 /// `all_variants` = false: seeds from files named generated*.txt are used as written only (x 2 sides); the hand-made
 /// ones always in all four orientations.
 pub fn fs_with(dir: &std::path::Path, all_variants: bool) -> Family {
+    fs_sel(dir, all_variants, true)
+}
+
+/// `with_generated` = false leaves the generated*.txt seeds out altogether (used by the 4-fold lock-step quick run).
+pub fn fs_sel(dir: &std::path::Path, all_variants: bool, with_generated: bool) -> Family {
     let mut boards: Vec<(rm::Board, String)> = Vec::new();
     let mut files: Vec<_> = std::fs::read_dir(dir).map(|d| d.filter_map(|e| e.ok()).map(|e| e.path()).collect::<Vec<_>>()).unwrap_or_default();
     files.sort();
@@ -349,6 +354,9 @@ pub fn fs_with(dir: &std::path::Path, all_variants: bool) -> Family {
     // expand to (board index, variant) pairs
     let mut items: Vec<(usize, u64)> = vec![];
     for (i, (_, name)) in boards.iter().enumerate() {
+        if !with_generated && name.starts_with("generated") {
+            continue;
+        }
         let nvar = if all_variants || !name.starts_with("generated") { 4 } else { 1 };
         for v in 0..nvar {
             items.push((i, v));
@@ -356,7 +364,7 @@ pub fn fs_with(dir: &std::path::Path, all_variants: bool) -> Family {
     }
     let n = items.len() as u64 * 2;
     Family {
-        name: format!("FS ({} curated full-board seeds{}, x 2 sides = {} roots; odd roots parsed with from_str)", boards.len(), if all_variants { " x (as written, mirrored, colour-swapped, both)" } else { ": hand-made ones x (as written, mirrored, colour-swapped, both), generated ones as written" }, n),
+        name: format!("FS ({} curated full-board seeds{}{}, x 2 sides = {} roots; odd roots parsed with from_str)", boards.len(), if with_generated { "" } else { " (generated ones left out)" }, if all_variants { " x (as written, mirrored, colour-swapped, both)" } else { ": hand-made ones x (as written, mirrored, colour-swapped, both), generated ones as written" }, n),
         n,
         how: 2,
         setups: None,
